@@ -77,6 +77,8 @@ class Model:
             return ("elem", base[1][1][i]) if i < len(base[1][1]) else T.opaque("unpack")
         if isinstance(base, tuple) and base and base[0] == "tolist":
             return ("getitem", base, T.C(i))          # a, b = s.tolist(): the elements by position
+        if isinstance(base, tuple) and len(base) == 2 and base[0] == "elem" and isinstance(base[1], tuple) and base[1] and base[1][0] == "to_numpy":
+            return ("getitem", base, T.C(i))          # for a, b in frame.to_numpy(): the fields of a row by position (the form row[i] gives)
         return ("item", base, i)
 
     # ------------------------------------------------------------------ attribute access
@@ -93,6 +95,8 @@ class Model:
                 return PyTuple([("nrows", v.ctx()), ("ncols", v.ctx())])
             if attr == "empty":
                 return T.cmp("==", ("nrows", v.ctx()), T.C(0))
+            if attr == "values" and v.colnames() is not None:
+                return self.ops.f_to_numpy(v, [], {}, None)          # frame.values is frame.to_numpy(): the rows as an array (known columns, in order)
             if attr in ("dtypes", "values", "T", "str", "size"):
                 return ("frameattr", attr, v)
             if attr in self.ops.FRAME_METHODS:
@@ -535,6 +539,9 @@ class Model:
                 except _re.error:
                     pass
             return ("re", callee[2], callee[1][1]) + tuple(to_term(x) for x in pos)
+        if isinstance(callee, tuple) and callee and callee[0] == "attr" and len(callee) == 3 and callee[2] == "tolist" and not pos and not kw \
+                and isinstance(callee[1], tuple) and callee[1] and callee[1][0] == "to_numpy":
+            return callee[1]          # array-of-rows.tolist(): the same rows (as lists)
         if isinstance(callee, tuple) and callee and callee[0] == "attr" and len(callee) == 3 and callee[2] == "__getitem__" and len(pos) == 1:
             return ("getitem", callee[1], to_term(pos[0]))             # d.__getitem__(k) is d[k]
         if isinstance(callee, tuple) and callee and callee[0] == "attr" and len(callee) == 3 and callee[2] == "astype" and pos:
